@@ -21,6 +21,7 @@ RULE = (
     '(exact equality), deep copies of every returned array and of every input, and a pristine twin family built from '
     'separately constructed user models. Non-trivial: >=1 gradient->value alternation on a dosed or reduced object '
     'and >=1 user-model mutation. Distinct = (back-end, structure, program).')
+RULE += (' ' + 'Added: a filter posterior and a dataset pointwise evaluation with param_map in the analytic family; gradients returned during in-place rounds stay unchanged; parameter names of every derived object after the program.')
 ASSUMPTIONS = [
     'exact repeatability is demanded (rtol 1e-12): the reference integrator and numpy are deterministic',
     'wrappers that are documented to hold a REFERENCE to the user model (ReducedMechanisticModel, ReducedErrorModel, '
